@@ -214,7 +214,10 @@ func applyMethodLines(m *model.Method, lines []string) {
 }
 
 // C05Scenarios enumerates the family. devS: include all source variants; k: setting deviations.
-func C05Scenarios(tier string) []*Scenario {
+func C05Scenarios(tier string) []*Scenario { return c05Build(tier, 0, 1) }
+
+// c05Build builds the scenarios with index ≡ shard (mod n) only (the thorough space is too large to hold in every worker).
+func c05Build(tier string, shard, nShards int) []*Scenario {
 	k := 2
 	srcs, tgts := c05Sources(), c05Targets()
 	placements := []string{"direct", "reused-by-slice", "pointer-variant", "sibling-pointer-without-lines", "lines-on-pointer-sibling", "lines-on-both-variants", "lines-on-value-and-mixed-variant"}
@@ -230,8 +233,14 @@ func C05Scenarios(tier string) []*Scenario {
 				if tier != "thorough" && (pi > 0 || ti > 1) {
 					kk = 1
 				}
+				if tier == "thorough" && pi > 1 {
+					kk = 1 // thorough: all pairs of lines on the direct and the reused placement, single lines elsewhere
+				}
 				for _, lines := range lineSubsets(c05Menu, kk) {
 					n++
+					if n%nShards != shard {
+						continue
+					}
 					id := fmt.Sprintf("F%05d", n)
 					s, sh := sv.build(id)
 					t, th := tv.build(id, s)
@@ -277,7 +286,11 @@ func C05Scenarios(tier string) []*Scenario {
 			}
 		}
 	}
-	out = append(out, samePackageScenarios(&n)...)
+	for i, sc := range samePackageScenarios(&n) {
+		if i%nShards == shard {
+			out = append(out, sc)
+		}
+	}
 	return out
 }
 
